@@ -132,7 +132,30 @@ def exec_select(case):
     else:
         arr = {'st': 'error', 'v': []}
         detail['array_error'] = [str(r[1])[:200] for r in res if r[0] != 'ok']
-    e = {'ev': 'select', 'f': f, 'n': len(Ts), 'acc': case['acc'], 'seg': seg_vals, 'sc': sc, 'arr': arr}
+    # the same temperatures with an integer dtype, when they are integral
+    arri = {'st': 'skip', 'v': []}
+    sci = []
+    if all(float(t).is_integer() for t in Ts):
+        ints = [int(t) for t in Ts]
+        ok = True
+        for t in ints:
+            r = [_call(lambda g=g: float(np.squeeze(g(T=t)))) for g in getters]
+            if {x[0] for x in r} != {'ok'}:
+                ok = False
+                break
+            sci.append([to_dec2(x[1]) for x in r])
+        if ok:
+            int_in = np.array(ints) if case['cseed'] % 4 < 2 else list(ints)
+            res = [_call(lambda g=g: [float(x) for x in np.atleast_1d(g(T=int_in))]) for g in getters]
+            if {r[0] for r in res} == {'ok'}:
+                arri = {'st': 'ok', 'v': [[to_dec2(x) for x in r[1]] for r in res]}
+            else:
+                arri = {'st': 'error', 'v': []}
+                detail['int_array_error'] = [str(r[1])[:200] for r in res if r[0] != 'ok']
+        else:
+            sci = []
+    e = {'ev': 'select', 'f': f, 'n': len(Ts), 'acc': case['acc'], 'seg': seg_vals, 'sc': sc, 'arr': arr,
+         'arri': arri, 'sci': sci}
     return [e], detail
 
 
